@@ -511,6 +511,9 @@ FAMILIES = [
     [f"zoo_ver::Big{k}" for k in range(6)],
     ["zoo_ver::DeepV1", "zoo_ver::DeepV2", "zoo_ver::DeepV3"],
     ["zoo_ver::HoldV1", "zoo_ver::HoldV2"],
+    ["zoo_ver::EnuCaseV1", "zoo_ver::EnuCaseV2"],
+    ["zoo_ver::ChoCaseV1", "zoo_ver::ChoCaseV2"],
+    ["zoo_ver::WideV1", "zoo_ver::WideV2"],
     # SET whose later addition has a lower tag than an earlier one
     ["zoo_ver::SetV1", "zoo_ver::SetV2"],
 ]
